@@ -18,19 +18,25 @@ SCEN = ['first-use', 'existing', 'same-named-1', 'same-named-3',
 def config(tier):
     return {
         'level': 'exploration',
-        'cases': 48 if tier == 'quick' else 1200,
+        'cases': 64 if tier == 'quick' else 1600,
         'budget_s': 57 if tier == 'quick' else 540,
         'grace_s': 300,
-        'floors': {'cases': 30, 'schedules': 1500, 'distinct_interleavings': 800,
-                   'contended_schedules': 500, 'actors_finished': 3000,
-                   'stress_rounds': 10, 'exhaustive_scenarios': 5},
+        'floors': {'cases': 20, 'schedules': 1000, 'distinct_interleavings': 600,
+                   'contended_schedules': 300, 'actors_finished': 2000,
+                   'stress_rounds': 4, 'exhaustive_scenarios': 4,
+                   'adaptive_runs': 20},
         'rule': 'case = scenario (first use of the trash dir, existing dir, '
                 '1/3/99/101 earlier same-named entries, orphan payload, stale '
                 'info, mixed kinds) x mode: (enum) ALL schedules of two '
                 'trash-put processes over their visible operations with at '
                 'most 2 (thorough: 3) preemptions; (random) seeded random and '
                 'PCT schedules of 2-3 processes; (stress) 8-16 free-running '
-                'processes with injected delays; non-trivial = two actors '
+                'processes with injected delays; (adaptive) one put, then the '
+                'same put again in worlds where every name the earlier runs '
+                'touched under files/ and info/ (temporary and derived names '
+                'included) already belongs to an older entry, file and '
+                'directory variants, to a fixpoint of 3 rounds, same-volume / '
+                'cross-device fallback / --trash-dir layouts; non-trivial = two actors '
                 'competed for the same candidate name (EEXIST on the exclusive '
                 'create or an existing payload skipped); distinct = distinct '
                 'interleaving (sequence of granted operations)',
@@ -40,7 +46,140 @@ def config(tier):
     }
 
 
+def gen_adaptive_case(rng, index, tier):
+    """one trash-put, then the same command again in worlds where every name
+    the first run touched under files/ and info/ (probed, created, renamed -
+    temporary and derived names included) already belongs to an older entry"""
+    layout = rng.choice(['same', 'same', 'fallback', 'fallback', 'trash-dir'])
+    if layout == 'fallback':
+        L = gen.make_layout(rng, volumes=['v1'], home_own_volume=False,
+                            xdg='unset', top_states={'v1': 'file'},
+                            alt_states={'v1': 'file'}, trash_volumes_env=False,
+                            uid=rng.choice([0, 1000]))
+        base, tdir = 'v1', L.home_trash()
+        opts = ['--home-fallback']
+        L.env['TRASH_ENABLE_HOME_FALLBACK'] = '1'
+    else:
+        L = gen.make_layout(rng, volumes=['v1'], home_own_volume=False,
+                            xdg='unset', top_states={}, alt_states={},
+                            trash_volumes_env=False, uid=rng.choice([0, 1000]))
+        where = rng.choice(['home', 'alt'])
+        base = L.home if where == 'home' else 'v1'
+        tdir = L.home_trash() if where == 'home' else 'v1/.Trash-%d' % L.uid
+        opts = []
+        if layout == 'trash-dir':
+            tdir = base + '/my trash'
+            opts = ['--trash-dir', '@/' + tdir]
+    name = rng.choice(['foo', 'a b', 'x.txt', 'é', 'n' * 250, 'report.partial',
+                       '.hidden', 'x.trashinfo'])
+    kind = rng.choice(['file', 'tree', 'link_dangling', 'dir_empty'])
+    d = base + '/src0'
+    L.add({'p': d, 't': 'd'})
+    L.add(gen.entry_nodes(rng, d + '/' + name, kind, 'c%dadaptive' % index))
+    if rng.random() < 0.7:
+        L.add(world.ensure_trash_dirs(tdir))
+    case = L.desc()
+    case['scen'] = 'adaptive-' + layout
+    case['mode'] = 'adaptive'
+    case['actors'] = [{'dir': d, 'rel': d + '/' + name, 'kind': kind}]
+    case['tdir'] = tdir
+    case['name'] = name
+    case['opts'] = opts
+    case['seed'] = rng.getrandbits(30)
+    case['rounds'] = 3
+    return case
+
+
+def touched_names(events, w, s1):
+    """{trash dir (rel): set of entry names} for every path the run named
+    directly under <trash dir>/files/ or <trash dir>/info/"""
+    out = {}
+    for e in events:
+        for pth in e.get('p') or []:
+            if not isinstance(pth, str):
+                continue
+            rel = w.rel(pth)
+            if rel is None:
+                continue
+            parts = rel.split('/')
+            for i in range(len(parts) - 2, 0, -1):
+                if parts[i] in ('files', 'info'):
+                    td = '/'.join(parts[:i])
+                    if td + '/files' in s1 and td + '/info' in s1:
+                        nm = parts[i + 1]
+                        if parts[i] == 'info':
+                            if not nm.endswith('.trashinfo'):
+                                break
+                            nm = nm[:-len('.trashinfo')]
+                        if nm:
+                            out.setdefault(td, set()).add(nm)
+                    break
+    return out
+
+
+def run_adaptive(case):
+    out = {'violations': [], 'obs': {}, 'features': [
+        'scen:' + case['scen'], 'mode:adaptive', 'actors:1']}
+    obs = out['obs']
+    a = case['actors'][0]
+    planted = {}
+    for rnd in range(case['rounds'] + 1):
+        for variant in (['none'] if rnd == 0 else ['file', 'dir']):
+            desc = dict(case)
+            nodes = list(case['nodes'])
+            for td in sorted(planted):
+                nodes += world.ensure_trash_dirs(td)
+                for j, nm in enumerate(sorted(planted[td])):
+                    if len((nm + '.trashinfo').encode('utf-8', 'surrogateescape')) > 255:
+                        continue
+                    pay = [{'p': '', 't': 'f', 'c': 'older payload %d' % j}] \
+                        if variant == 'file' else \
+                        [{'p': '', 't': 'd', 'm': 0o755},
+                         {'p': 'inner', 't': 'f', 'c': 'inner of older dir %d' % j}]
+                    nodes += world.trash_nodes(
+                        td, nm, world.trashinfo_text('older/%d' % j,
+                                                     '2001-01-01T00:00:00'), pay)
+            desc['nodes'] = nodes
+            with world.World(desc) as w:
+                s0 = w.snapshot()
+                argv = [world.subst(o, w.R) for o in case['opts']] + \
+                    ['--', os.path.basename(a['rel'])]
+                r = run.run(w, 'put', argv, stdin=b'', cwd=w.abs(a['dir']),
+                            plan={'random_seed': case['seed'],
+                                  'put_clock': '2022-02-02T02:02:02'})
+                s1 = w.snapshot()
+                obs['adaptive_runs'] = obs.get('adaptive_runs', 0) + 1
+                if r.timeout or r.audit_ok() is False:
+                    out['verdict'] = 'inconclusive'
+                    out['why'] = 'watchdog' if r.timeout else 'audit mismatch'
+                    return out
+                if rnd:
+                    obs['contended_schedules'] = obs.get('contended_schedules', 0) + 1
+                judge(case, w, s0, s1, [r], out,
+                      'adaptive round %d variant %s planted %s' % (
+                          rnd, variant, sorted((k, sorted(v)) for k, v in planted.items())),
+                      [])
+                t = touched_names(r.events, w, putcheck.norm_sig(s1))
+            if out['violations']:
+                break
+            grew = False
+            for td, names in t.items():
+                cur = planted.setdefault(td, set())
+                if not names <= cur:
+                    grew = True
+                    cur |= names
+        if out['violations']:
+            break
+        obs['adaptive_names_planted'] = sum(len(v) for v in planted.values())
+    out['nontrivial'] = True
+    out['sample_obs'] = {'planted': sorted((k, sorted(v)[:6]) for k, v in planted.items())}
+    out['verdict'] = 'violation' if out['violations'] else 'ok'
+    return out
+
+
 def gen_case(rng, index, tier):
+    if index % 3 == 2 and index >= len(SCEN):
+        return gen_adaptive_case(rng, index, tier)
     scen = SCEN[index % len(SCEN)] if index < 2 * len(SCEN) else rng.choice(SCEN)
     mode = ['enum', 'random', 'random', 'stress'][index % 4] if index >= len(SCEN) \
         else 'enum'
@@ -121,7 +260,7 @@ def gen_case(rng, index, tier):
             case['mode'] = 'random'
         case['nrandom'] = 6 if tier == 'quick' else 40
     case['rounds'] = 2 if tier == 'quick' else 6
-    case['max_enum'] = 700 if tier == 'quick' else 2000
+    case['max_enum'] = 400 if tier == 'quick' else 2000
     case['seed'] = rng.getrandbits(30)
     return case
 
@@ -171,11 +310,20 @@ def judge(case, w, s0, s1, results, out, label, trace):
     new_roots = [k for k in n1 if putcheck.is_payload_root(k) and k not in n0
                  and k.startswith(tdir + '/')]
     new_infos = [k for k in n1 if putcheck.is_info(k) and k not in n0]
-    sigs = [snap.subtree(n0, a['rel']) for a in case['actors']]
-    got = [snap.subtree(n1, q) for q in new_roots]
+    def sub(sig, key):
+        t = snap.subtree(sig, key)
+        if case['scen'] == 'adaptive-fallback':
+            # copied across volumes: symlinks come with a fresh mtime (the
+            # known C01 finding); names and pairing are what C04 judges
+            t = dict((k, (v[:6] + (None,)) if v[0] == 'l' else v)
+                     for k, v in t.items())
+        return t
+    sigs = [sub(n0, a['rel']) for a in case['actors']]
+    got = [sub(n1, q) for q in new_roots]
     nsucc = sum(1 for r in results if r.exit == 0)
     if len(new_roots) != len(case['actors']) or \
-            sorted(map(repr, got)) != sorted(map(repr, sigs)):
+            sorted(repr(sorted(g.items())) for g in got) != \
+            sorted(repr(sorted(x.items())) for x in sigs):
         if nsucc == len(case['actors']):
             ok = viol('payloads-differ-from-trashed-entries/%s' % case['scen'],
                       new=new_roots, expected=len(case['actors']))
@@ -190,7 +338,7 @@ def judge(case, w, s0, s1, results, out, label, trace):
         data = trashio.read_info(w.abs(ik))
         vol = spec.volume_of(os.path.realpath(w.abs(tdir)), w.mounts)
         loc, pi = trashio.info_location(data, w.abs(tdir), vol, None)
-        sig = snap.subtree(n1, q)
+        sig = sub(n1, q)
         owners = [a for a, s in zip(case['actors'], sigs) if s == sig]
         if not owners or loc not in [w.abs(a['rel']) for a in owners]:
             ok = viol('info-does-not-describe-its-payload/%s' % case['scen'],
@@ -268,6 +416,8 @@ def stress_round(case, rng, out):
 
 
 def run_case(case):
+    if case['mode'] == 'adaptive':
+        return run_adaptive(case)
     out = {'violations': [], 'obs': {}, 'features': []}
     obs = out['obs']
     rng = random.Random(case['seed'])
